@@ -14,6 +14,9 @@ var labelRunes = []rune("abcdefghijklmnopqrstuvwxyz0123456789-_")
 
 // Label draws one DNS label (1..63 bytes; host-name characters mostly, any byte except '.' otherwise).
 func Label(t *rapid.T) string {
+	if rapid.IntRange(0, 11).Draw(t, "wordlabel") == 0 { // labels that are words of the naming schemes themselves, in either case
+		return rapid.SampledFrom([]string{"local", "LOCAL", "Local", "arpa", "in-addr", "_tcp", "_udp", "com", "lan", "sleep-proxy"}).Draw(t, "word")
+	}
 	n := rapid.OneOf(rapid.IntRange(1, 8), rapid.IntRange(1, 8), rapid.IntRange(1, 63)).Draw(t, "labellen")
 	if rapid.IntRange(0, 9).Draw(t, "binlabel") == 0 {
 		b := Bytes(t, n, "labelbytes")
